@@ -120,6 +120,11 @@ func (win Window) Wrap(segs ...Segment) (col int, row int)
   loop 2 invariant keep: OutsideKept(win)
   loop 3 invariant keep: OutsideKept(win)
   loop 4 invariant keep: OutsideKept(win)
+  -- "a new row is started when the row is full": no cluster is ever placed at a column at or beyond the width
+  loop 1 invariant C11_rowfull: cols > 0 ==> col < cols
+  loop 2 invariant C11_rowfull: cols > 0 ==> col < cols
+  loop 3 invariant C11_rowfull: cols > 0 ==> col < cols
+  loop 4 invariant C11_rowfull: cols > 0 ==> col < cols
 
 -- A child window never covers more than its parent: clamping equations of New.
 func (win Window) New(col int, row int, cols int, rows int) Window
